@@ -4,7 +4,7 @@ import common as C
 
 ID = "C16"
 LEVEL = "proof"
-COQ_HEADER = "From MiniMcmc Require Import Base.Fp Model.Categorical."
+COQ_HEADER = "From MiniMcmc Require Import Base.Fp Base.Num Model.Categorical.\nClose Scope Q_scope.\nClose Scope R_scope."
 RULE = ("weight vectors of length 1..64 (zeros at any position, unnormalised, dyadic and random, f32/f64); for each vector "
         "the variates r in {0, 1-ulp} U {cum_i, pred cum_i, succ cum_i} plus random grid points are injected through the "
         "verif_set_rng hook; probabilities (bitwise) and sampled indices (exact) compared with Model.Categorical evaluated "
@@ -90,7 +90,30 @@ def coq_term(case, out):
     if "panic" in out:
         return None
     fn = "cat32s" if case["f"] == "f32" else "cat64s"
-    return "%s %s %s" % (fn, C.zlist(case["ws"]), C.zlist(out["rs"]))
+    t = "%s %s %s" % (fn, C.zlist(case["ws"]), C.zlist(out["rs"]))
+    if exact_ok(case):
+        dyl = lambda bs: "[" + "; ".join(dyq(bf(case["f"], b)) for b in bs) + "]"
+        t += " ++ catq_eval %s %s" % (dyl(case["ws"]), dyl(out["rs"]))
+    return t
+
+
+def exact_ok(case):
+    """weight vectors for which the exact-arithmetic reading (Model.Categorical.cat_new_Q / scan_Q) is evaluated too"""
+    vals = [bf(case["f"], w) for w in case["ws"]]
+    return len(vals) <= 24 and all(math.isfinite(v) and v >= 0 for v in vals) and sum(vals) > 0 and \
+        max(vals) / min(v for v in vals if v > 0) < 2.0 ** 40
+
+
+def dyq(x):
+    if x == 0:
+        return "(dy 0 0)"
+    m, e = math.frexp(x)
+    m = int(m * (1 << 53))
+    e -= 53
+    while m % 2 == 0:
+        m //= 2
+        e += 1
+    return "(dy %s %s)" % (C.z(m), C.z(e))
 
 
 def compare(case, out, model):
@@ -99,11 +122,28 @@ def compare(case, out, model):
     if model is None:
         return None
     n = len(case["ws"])
+    nr = len(out["rs"])
     if out["probs"] != model[:n]:
         return "normalised probabilities differ bitwise from the Flocq model"
-    if out["idx"] != model[n:]:
-        k = [i for i, (a, b) in enumerate(zip(out["idx"], model[n:])) if a != b][0]
-        return "variate %s: implementation sampled index %d, model %d" % (bf(case["f"], out["rs"][k]), out["idx"][k], model[n:][k])
+    if out["idx"] != model[n:n + nr]:
+        k = [i for i, (a, b) in enumerate(zip(out["idx"], model[n:n + nr])) if a != b][0]
+        return "variate %s: implementation sampled index %d, model %d" % (bf(case["f"], out["rs"][k]), out["idx"][k], model[n:n + nr][k])
+    if exact_ok(case):
+        from fractions import Fraction
+        q = model[n + nr:]
+        ps = [Fraction(q[2 * i], q[2 * i + 1]) for i in range(n)]
+        idx = q[2 * n:]
+        tol = Fraction(n + 2) * Fraction(2.0 ** -21 if case["f"] == "f32" else 2.0 ** -50)
+        for i in range(n):
+            if abs(Fraction(bf(case["f"], out["probs"][i])) - ps[i]) > tol:
+                return "probability %d: %r, exact w/sum (cat_new_Q) = %s" % (i, bf(case["f"], out["probs"][i]), float(ps[i]))
+        cums = [sum(ps[:i + 1]) for i in range(n)]
+        for k in range(nr):
+            r = Fraction(bf(case["f"], out["rs"][k]))
+            if min(abs(r - c) for c in cums) <= tol:
+                continue                         # within rounding of a cumulative sum: the exact scan may differ legitimately
+            if idx[k] != out["idx"][k]:
+                return "variate %s: implementation sampled index %d, exact-arithmetic scan (scan_Q) gives %d" % (float(r), out["idx"][k], idx[k])
     return None
 
 
